@@ -286,6 +286,14 @@ func vWireSetup() {
 	vW.ok = true
 }
 
+// vWirePublisher returns a DataPublisher with both ZMQ ports enabled (the sockets exist already).
+func vWirePublisher() *DataPublisher {
+	dp := &DataPublisher{}
+	dp.SetPubRecords()
+	dp.SetPubSummaries()
+	return dp
+}
+
 func vRunC14(c *vCase) {
 	r := c.R
 	vWireOnce.Do(vWireSetup)
@@ -333,8 +341,11 @@ func vRunC14(c *vCase) {
 		if i%3 == 1 { // same first byte, different second byte: must not reach the filtered subscriber
 			rec.channelIndex = vPick(r, 0x0101, 0x0301, 0x0200, 0x0102)
 		}
-		PubRecordsChan <- []*DataRecord{rec}
-		PubSummariesChan <- []*DataRecord{rec}
+		// through the publisher object the processing code uses (both ports enabled, no files)
+		if err := vWirePublisher().PublishData([]*DataRecord{rec}); err != nil {
+			c.Violate("c14:publish-error", "PublishData returned %v", err)
+			return
+		}
 		m, err := vW.subRecAll.RecvMessageBytes(0)
 		if err != nil {
 			c.Inconclusive("wire-recv", "record subscriber received nothing: %v", err)
@@ -364,8 +375,10 @@ func vRunC14(c *vCase) {
 	batch[0].channelIndex = vW.chanFilter
 	batch[1].channelIndex = vPick(r, 0x0101, 0x0301, 7)
 	batch[2].channelIndex = vW.chanFilter
-	PubRecordsChan <- batch
-	PubSummariesChan <- batch
+	if err := vWirePublisher().PublishData(batch); err != nil {
+		c.Violate("c14:publish-error", "PublishData returned %v", err)
+		return
+	}
 	for bi, rec := range batch {
 		m, err := vW.subRecAll.RecvMessageBytes(0)
 		if err != nil {
